@@ -597,3 +597,96 @@ func TestStandinCase(t *testing.T) {
 	})
 	x.finish(t)
 }
+
+// TestStandinStack (C13): the end-to-end form of the stack-limit property for the part the proofs assume (that the
+// interpreter never pushes more than TrackCount*4 slots between two calls of ensureStorage, and unwinds correctly after
+// a growth step). For every pattern, text and limit L: the call with the limit returns exactly what the unlimited call
+// returns, or ErrBacktrackingStackLimit; it never panics; a larger limit never turns a success into an error; the same
+// Regexp answers a following call like a fresh one.
+func TestStandinStack(t *testing.T) {
+	level := factsEnvInt("STANDIN_EXEC_LEVEL", 1)
+	x := &xrun{show: factsEnvInt("STANDIN_FACTS_SHOW", 8)}
+	var texts [][]rune
+	factsWords([]rune{'a', 'b', '-'}, 3, func(w []rune) { texts = append(texts, append([]rune(nil), w...)) })
+	for _, s := range []string{"aaaaaaaaaaaa", "abababababab-", "aaaaaaaab", strings.Repeat("ab-", 6), "xxxxxxxxxxxx", "xxxxxxy"} {
+		texts = append(texts, []rune(s))
+	}
+	limits := []int{0, 1, 2, 7, 8, 9, 31, 32, 33, 63, 64, 65, 66, 100, 127, 128, 129, 200, 257, 1000}
+	pats := xPatterns(1)
+	for _, p := range []string{"(?:a*?b*?a*?b*?a*?b*?x)*y", "(a|b|-)*-", "(?:(a)|(b)|(-))*-\\1?", "(?:a|b)+?-", "(?<A>a)+(?<-A>b)*-?", "((a)|(b))*(?=-)", "(?:[ab]{1,3}-?){1,9}", "(?:(\\w?x){12})*y"} {
+		pats = append(pats, xatom{s: p, u: p})
+	}
+	if level < 2 {
+		// quick tier: every fourth generated pattern, all hand-picked ones
+		var sel []xnode
+		for i, p := range pats {
+			if i%4 == 0 || i >= len(pats)-8 {
+				sel = append(sel, p)
+			}
+		}
+		pats = sel
+	}
+	x.patterns = len(pats)
+	xparallel(pats, func(p xnode) {
+		lc, lf, ln, ls := 0, 0, 0, 0
+		for _, opt := range []RegexOptions{None, RightToLeft} {
+			ref, err := Compile(p.fwd(), opt, OptionMaxBacktrackingStackSize(-1))
+			if err != nil {
+				ls++
+				continue
+			}
+			res := make([]*Regexp, len(limits))
+			for i, l := range limits {
+				res[i], _ = Compile(p.fwd(), opt, OptionMaxBacktrackingStackSize(l))
+			}
+			for _, text := range texts {
+				s := 0
+				if opt&RightToLeft != 0 {
+					s = len(text)
+				}
+				want := xfind(ref, text, s)
+				if want.err != "" {
+					x.report("S-unlimited", fmt.Sprintf("pattern=%q options=%d text=%q without a limit: %s", p.fwd(), int(opt), string(text), want.err))
+					continue
+				}
+				if want.ok {
+					lf++
+				} else {
+					ln++
+				}
+				succeeded := false
+				for i, l := range limits {
+					if res[i] == nil {
+						continue
+					}
+					lc++
+					got := xfind(res[i], text, s)
+					switch {
+					case got.err == ErrBacktrackingStackLimit.Error():
+						if succeeded {
+							x.report("S-monotone", fmt.Sprintf("pattern=%q options=%d text=%q: a smaller limit succeeded, limit %d fails with the stack-limit error", p.fwd(), int(opt), string(text), l))
+						}
+					case got.err != "":
+						x.report("S-limit", fmt.Sprintf("pattern=%q options=%d text=%q limit=%d: %s", p.fwd(), int(opt), string(text), l, got.err))
+					default:
+						succeeded = true
+						if got.String() != want.String() {
+							x.report("S-limit", fmt.Sprintf("pattern=%q options=%d text=%q limit=%d gives %s, without a limit %s", p.fwd(), int(opt), string(text), l, got, want))
+						}
+					}
+					// the Regexp stays usable: the same call on a short text answers like the unlimited one
+					if after, fresh := xfind(res[i], []rune("ab-"), s%4), xfind(ref, []rune("ab-"), s%4); after.err == "" && after.String() != fresh.String() {
+						x.report("S-after", fmt.Sprintf("pattern=%q options=%d limit=%d: after the call on %q, a call on \"ab-\" gives %s, a fresh Regexp %s", p.fwd(), int(opt), l, string(text), after, fresh))
+					}
+				}
+			}
+		}
+		x.mu.Lock()
+		x.cases += lc
+		x.found += lf
+		x.failed += ln
+		x.skipped += ls
+		x.mu.Unlock()
+	})
+	x.finish(t)
+}
